@@ -180,7 +180,9 @@ def read_dump(path):
     """All states of a TLC -dump file."""
     text = open(path, encoding="utf-8").read()
     blocks = re.split(r"(?m)^State \d+:\s*$", text)
-    return [parse_state(b) for b in blocks if b.strip()]
+    # TLC writes the states in the order its workers find them, which differs from run to run: sort the blocks by their
+    # text so that seeded samples of the states are reproducible
+    return [parse_state(b) for b in sorted(b.strip() for b in blocks if b.strip())]
 
 
 def read_behaviour(path):
